@@ -40,14 +40,14 @@ Print Assumptions C15_events_sound.
 Theorem C15_shape : forall env inp r,
   In r (rp_reports (rp_process env inp)) ->
   let p := b_pri (i_bundle inp) in
-  has (sr_flags r) F_ADMIN = true /\ any_status_request (sr_flags r) = false
-  /\ sr_dst r = p_rpt p
+  has (rpr_flags r) F_ADMIN = true /\ any_status_request (rpr_flags r) = false
+  /\ rpr_dst r = p_rpt p
   /\ sr_ref_src r = p_src p /\ sr_ref_time r = p_time p /\ sr_ref_seq r = p_seq p
   /\ sr_ref_frag r = (if has (p_flags p) F_FRAG then Some (p_off p, p_total p) else None)
-  /\ ((exists t, sr_time r = Some t) <-> has (p_flags p) F_TIME = true)
-  /\ (forall t, sr_time r = Some t -> t = i_now inp)
-  /\ sr_pos r <= 3
-  /\ (rp_has_endpoint env (sr_src r) = true \/ sr_src r = rn_node env).
+  /\ ((exists t, rpr_time r = Some t) <-> has (p_flags p) F_TIME = true)
+  /\ (forall t, rpr_time r = Some t -> t = i_now inp)
+  /\ rpr_pos r <= 3
+  /\ (rp_has_endpoint env (rpr_src r) = true \/ rpr_src r = rn_node env).
 Proof. exact report_shape_full. Qed.
 Print Assumptions C15_shape.
 
@@ -107,7 +107,7 @@ Definition ex_input (kind : N) (b : bundle) (sends : list bool) : rinput :=
 (* a fragment requesting everything plus times, forwarded with one of two sends succeeding:
    reception and forwarding reports, both naming the fragment *)
 Example C15_example_forwarded :
-  map (fun r => (sr_pos r, sr_reason r, sr_ref_frag r, sr_time r))
+  map (fun r => (rpr_pos r, rpr_reason r, sr_ref_frag r, rpr_time r))
       (rp_reports (rp_process ex_env (ex_input 0 (ex_bundle (F_FRAG + F_TIME + F_RECEPTION + F_FORWARD + F_DELIVERY + F_DELETION)
                                                             (Dtn [102] [120]) []) [false; true])))
   = [(0, 0, Some (5, 50), Some 2000); (1, 0, Some (5, 50), Some 2000)].
@@ -115,7 +115,7 @@ Proof. vm_compute. reflexivity. Qed.
 
 (* all sends fail: only the reception report *)
 Example C15_example_all_sends_failed :
-  map (fun r => (sr_pos r, sr_reason r))
+  map (fun r => (rpr_pos r, rpr_reason r))
       (rp_reports (rp_process ex_env (ex_input 0 (ex_bundle (F_RECEPTION + F_FORWARD + F_DELIVERY + F_DELETION)
                                                             (Dtn [102] [120]) []) [false; false])))
   = [(0, 0)].
@@ -129,14 +129,14 @@ Proof. vm_compute. split; [reflexivity | tauto]. Qed.
 
 (* delivered to the agent: one delivery report *)
 Example C15_example_delivered :
-  map (fun r => (sr_pos r, sr_reason r, sr_dst r))
+  map (fun r => (rpr_pos r, rpr_reason r, rpr_dst r))
       (rp_reports (rp_process ex_env (ex_input 0 (ex_bundle F_DELIVERY (Dtn [110; 48] [97]) []) [])))
   = [(2, 0, Dtn [114] [])].
 Proof. vm_compute. reflexivity. Qed.
 
 (* unknown block with report + delete flags: reception/unsupported, then deletion/unsupported *)
 Example C15_example_unknown_block :
-  map (fun r => (sr_pos r, sr_reason r))
+  map (fun r => (rpr_pos r, rpr_reason r))
       (rp_reports (rp_process ex_env (ex_input 0 (ex_bundle F_DELETION (Dtn [102] [120])
          [ {| c_num := 2; c_flags := BF_REPORT + BF_DELETE; c_crc := 0; c_val := XGeneric 77 [9] |} ]) [true])))
   = [(0, 11); (3, 11)].
